@@ -256,10 +256,13 @@ fn dictionary_generations(ctx: &mut Ctx) {
             }
             issued.push((a, b, s));
             for (ia, ib, want) in &issued {
-                let got = panics::catch(|| (r.index(*ia).to_string(), p.index(*ib).to_string()));
+                // copy the bytes, not the (possibly invalid) str
+                let got = panics::catch(|| {
+                    (String::from_utf8_lossy(r.index(*ia).as_bytes()).into_owned(), String::from_utf8_lossy(p.index(*ib).as_bytes()).into_owned(), r.index(*ia).as_bytes() == want.as_bytes() && p.index(*ib).as_bytes() == want.as_bytes())
+                });
                 match got {
-                    Ok((ga, gb)) => {
-                        if ga.as_bytes() != want.as_bytes() || gb.as_bytes() != want.as_bytes() {
+                    Ok((ga, gb, same)) => {
+                        if !same {
                             ctx.fail("string-differs", format!("pushed {:?}, plain region reads {:?}, pairs region reads {:?}", want, ga, gb));
                         }
                     }
@@ -333,9 +336,9 @@ fn dictionary_generations(ctx: &mut Ctx) {
                 break;
             }
             for (i, want) in &issued {
-                match panics::catch(|| cur.index(*i).to_string()) {
-                    Ok(got) => {
-                        if got.as_bytes() != want.as_bytes() {
+                match panics::catch(|| (String::from_utf8_lossy(cur.index(*i).as_bytes()).into_owned(), cur.index(*i).as_bytes() == want.as_bytes())) {
+                    Ok((got, same)) => {
+                        if !same {
                             ctx.fail("string-differs", format!("generation {g}: pushed {:?}, index {:?} reads {:?}", want, i, got));
                         }
                     }
